@@ -301,6 +301,12 @@ func (r *tcpResponseWriter) WriteMsg(ctx context.Context, req, resp *dns.Msg) (e
 	normalizeTCP(si.Proto, req, resp)
 	r.addTCPKeepAlive(req, resp)
 
+	// The keep-alive option is added after normalizeTCP has truncated the
+	// response to the maximum size, so make sure that it still fits.
+	if resp.Len() > dns.MaxMsgSize {
+		truncate(resp, dns.MaxMsgSize)
+	}
+
 	bufPtr := r.respPool.Get()
 	defer func() {
 		if err != nil {
